@@ -5,6 +5,8 @@ func extraEngines(prop string) []Engine {
 	switch prop {
 	case "C03", "C04":
 		return []Engine{&byzEngine{prop: prop}}
+	case "C13":
+		return []Engine{&diskEngine{}}
 	case "C12":
 		return []Engine{&c12Engine{}}
 	}
